@@ -7,6 +7,9 @@ Local Open Scope Z_scope.
 Lemma Ok_inj {A : Type} (a b : A) : Ok a = Ok b -> a = b.
 Proof. intros E; inversion E; reflexivity. Qed.
 
+Lemma bind_ok {A B} (r : res A) (f : A -> res B) v : bind r f = Ok v -> exists a, r = Ok a /\ f a = Ok v.
+Proof. destruct r; cbn; intros H; [eauto | discriminate]. Qed.
+
 Lemma ONE_val : ONE = 281474976710656. Proof. reflexivity. Qed.
 Lemma ONE_pos : 0 < ONE. Proof. rewrite ONE_val; lia. Qed.
 Lemma I128_MAX_val : I128_MAX = 170141183460469231731687303715884105727. Proof. reflexivity. Qed.
